@@ -2102,6 +2102,8 @@ class ReferenceManager:
             new_value = old_value
 
         if spec is not None:
+            if new_value is not old_value and self.has_spec(new_value):
+                raise ValueError("new value already has its IOSpec")
             self._manager.update_spec_value(spec, new_value, kwargs)
             new_value = spec.value
 
